@@ -17,7 +17,7 @@ COMPONENTS = {'real': ['src/interpret.c', 'src/frame.c', 'src/stack.c', 'src/err
 ASSUMPTIONS = ['set_eval_limit/reset_eval_cost are excluded (documented privileged override)',
                'the size invariant is observed on the value on top of the stack at every instruction and on builder results; the builder list is a sample of the operator/efun surface']
 SPINS = ['sp_while', 'sp_for', 'sp_dowhile', 'sp_foreach', 'sp_foreach_map', 'sp_foreach_str', 'sp_whiledec', 'sp_loopcond', 'sp_looplocal', 'sp_objname',
-         'rc_direct', 'rc_mut_a', 'rc_fp', 'rc_filter', 'rc_map', 'rc_sort', 'rc_unique', 'rc_callother', 'rc_catch', 'rc_catch2', 'rc_fpargs', 'rc_spread', 'rc_efunfp']
+         'rc_direct', 'rc_mut_a', 'rc_fp', 'rc_filter', 'rc_map', 'rc_sort', 'rc_unique', 'rc_callother', 'rc_catch', 'rc_catch2', 'sp_catchdiv', 'sp_catcherr', 'sp_catchthrow', 'sp_catchidx', 'sp_catchdest', 'rc_catcherr', 'rc_fpargs', 'rc_spread', 'rc_efunfp']
 BUILDS = ['str+=', 'str+', 'gstr+=', 'sprintf', 'repeat', 'replace', 'implode', 'arr+=', 'arr+', 'garr+=', 'allocate', 'explode', 'map+', 'mapins',
           'gmapins', 'allocmap', 'allocbuf', 'buf+', 'copy', 'keys', 'strrange', 'arrrange', 'bufrange', 'gstrrange', 'replace5', 'replace1', 'spad', 'spadr',
           'scol', 'imparr', 'strslice', 'mapmul', 'replace_end', 'replace_mid']
@@ -38,6 +38,7 @@ def gen(rng, tier, i):
     for k, vv in lim.items(): p.cfg(k, vv)
     p.opt('c04_monitor', 1)
     p.opt('max_instr', 3000000)
+    p.opt('max_rec', 0)
     p.opt('epoll_seed', rng.randint(1, 1 << 30))
     nid = [0]
 
@@ -157,14 +158,19 @@ def _limit_for(kind, fld, lim):
 
 def summarize(plan, res):
     kinds = []
-    nerr = 0
+    nerr = 0; nrec = 0; ncaught = 0
     task = '?'
     for e in res.events:
+        if e.kind == 'D': nrec += 1
         if e.kind == 'R':
+            nrec += 1
+            if e.rest.startswith('ERR caught=1'): ncaught += 1
             w = e.rest.split(' ')
             if w[0] in ('DO', 'HB', 'CO', 'INPUT', 'CREATE'): task = w[0]
             if w[0] == 'SPIN': kinds.append('%s/%s/%s' % (w[3], w[4] if len(w) > 4 else 'c0', task))
             elif w[0] == 'BUILD': kinds.append('%s/%s' % (w[3], task))
             elif w[0] == 'ERR' and re.search(r'Too long|Too deep|too large|too long|maximum|Illegal|overflow', e.rest): nerr += 1
         elif e.kind == 'D' and re.search(r'Too long|Too deep', e.rest): nerr += 1
-    return {'nontrivial': nerr > 0, 'abstract': hashlib.sha256(' '.join(sorted(set(kinds))).encode()).hexdigest()[:16], 'probes': {'limit_errors': nerr}}
+    return {'nontrivial': nerr > 0, 'abstract': hashlib.sha256(' '.join(sorted(set(kinds))).encode()).hexdigest()[:16], 'probes': {'limit_errors': nerr, 'runs_with_over_2000_records': 1 if nrec > 2000 else 0, 'runs_with_over_8000_records': 1 if nrec > 8000 else 0,
+                                                                                                                                           'runs_with_over_20000_records': 1 if nrec > 20000 else 0,
+                                                                                                                                           'caught_errors_in_loops': ncaught}}
